@@ -213,7 +213,13 @@ func buildEnvDocs(parties []*envParty, ktName string, r *Rng) *envVDR {
 				src = p
 				p.docID, p.kaID = docID, id
 			}
-			ka, err := envKeyAgreement(src, ktName, docID, id)
+			// the framework writes its own peer DID documents with RELATIVE verification method ids: every other document
+			// here does so too (callers keep naming keys by the absolute id)
+			vmID := id
+			if r.N(2) == 0 {
+				vmID = fmt.Sprintf("#ka-%d", j)
+			}
+			ka, err := envKeyAgreement(src, ktName, docID, vmID)
 			if err != nil {
 				panic(err)
 			}
